@@ -551,6 +551,14 @@ def run(ctx):
     for inst in ctx.rules[-1].instances:
         inst["rule"] = "C06-R7"
         inst["key"] = inst["key"].replace("C07-R2|", "C06-R7|", 1)
+    # shared with C14-R5: a record comes back from the database with the parts
+    # (time, commit, bytes) it was appended with
+    from . import c14
+    c14.r5_db_row_mapping(ctx)
+    ctx.rules[-1].id = "C06-R8"
+    for inst in ctx.rules[-1].instances:
+        inst["rule"] = "C06-R8"
+        inst["key"] = inst["key"].replace("C14-R5|", "C06-R8|", 1)
     if ctx.tier == "thorough" and ctx.config == "workspace":
         from .. import witness
         witness.run(ctx, 'C06-W', 'the commit tree cannot be mutated through the public EventLog API', {'TreeIsReadOnly': '`log.tree().commit()` through &L'})
